@@ -234,7 +234,7 @@ def check_decl(dc, st, tier, only=None):
         else:
             check_nonbytes(dc, st)
         return
-    budget = 800 if tier == 'quick' else 4000
+    budget = ea.budget_for(dc, tier)
     seen = set()
     npv = 0
     for raw, r in ea.inputs_for(dc, budget, ext=True if dc.spec.get('tag') else None):
